@@ -549,6 +549,20 @@ func (channel *Channel) close() {
 	channel.logger.Info("Channel closed")
 }
 
+// reset gives a closed channel, whose number the client opens again, the state of a new one
+func (channel *Channel) reset() {
+	atomic.StoreUint64(&channel.deliveryTag, 0)
+	atomic.StoreUint64(&channel.confirmDeliveryTag, 0)
+	channel.active = true
+	channel.currentMessage = nil
+	channel.qos = qos.NewAmqpQos(0, 0)
+	channel.consumerQos = qos.NewAmqpQos(0, 0)
+	channel.confirmLock.Lock()
+	channel.confirmMode = false
+	channel.confirmQueue = make([]*amqp.ConfirmMeta, 0)
+	channel.confirmLock.Unlock()
+}
+
 func (channel *Channel) delete() {
 	channel.closeCh <- true
 	channel.wg.Wait()
